@@ -998,6 +998,9 @@ func (x *lcRunner) exec(o lcOp) {
 	if !e.waitAsync(expBefore) {
 		x.fail("expiry hand-off did not complete", "C08/harness")
 	}
+	if n := e.notifier.flushCancels(); n > 0 {
+		r.Count("notifier/cancel-errors-delivered")
+	}
 	switch {
 	case o.Op == "stage" && res == "ok", o.Op == "drop":
 		e.staleBatch = false
